@@ -66,7 +66,8 @@ class Path:
 
 
 class SymEx:
-    def __init__(self, body, max_paths=4000, overrides=None):
+    def __init__(self, body, max_paths=4000, overrides=None, tolerate_loops=False):
+        self.tolerate_loops = tolerate_loops
         self.overrides = overrides or {}
         self.body = body
         self.max_paths = max_paths
@@ -92,6 +93,12 @@ class SymEx:
     def read_place(self, env, cells, pl):
         l = pl["l"]
         v = env.get(l, ("uninit", l))
+        # field of a `&mut` parameter cell: (*self).f
+        if v[0] == "ref" and v[1][0] == "cell" and len(pl["p"]) >= 2 and pl["p"][0] == "*" \
+                and all(isinstance(x, dict) and "f" in x for x in pl["p"][1:]):
+            key = (v[1][1],) + tuple(x["f"] for x in pl["p"][1:])
+            if key in cells:
+                return cells[key]
         for p in pl["p"]:
             if p == "*":
                 if v[0] == "ref":
@@ -142,6 +149,11 @@ class SymEx:
                 else:
                     env[tgt[1]] = val
                 return
+        v = env.get(l)
+        if v and v[0] == "ref" and v[1][0] == "cell" and len(pl["p"]) >= 2 and pl["p"][0] == "*" \
+                and all(isinstance(x, dict) and "f" in x for x in pl["p"][1:]):
+            cells[(v[1][1],) + tuple(x["f"] for x in pl["p"][1:])] = val
+            return
         # field write into a local aggregate / through a ref: keep a coarse record
         base = env.get(l, ("uninit", l))
         env[l] = ("updated", base, repr(pl["p"]), val)
@@ -250,6 +262,15 @@ class SymEx:
             if len(self.paths) > self.max_paths:
                 raise Unsupported("too many paths")
             if bb in visited:
+                if self.tolerate_loops:
+                    p = Path()
+                    p.guards = list(guards)
+                    p.calls = list(calls)
+                    p.diverged = "loop"
+                    p.cells = dict(cells)
+                    p.loop_line = body.blocks[bb]["t"].get("line")
+                    self.paths.append(p)
+                    return
                 raise Unsupported("loop at bb%d" % bb)
             visited = visited | {bb}
             blk = body.blocks[bb]
